@@ -248,7 +248,13 @@ def var_array(v, dlen):
     """decode the data of a spec variable -> ndarray or MaskedArray"""
     shape = tuple(dlen[d] for d in v['dims'])
     code = v['dtype']
-    if 'raw' in v:
+    if 'gen' in v:
+        # large deterministic ramp (values 0..gen-1 repeating), for cases
+        # whose data would not fit a JSON spec
+        size = int(np.prod(shape)) if shape else 1
+        arr = (np.arange(size) % int(v['gen'])).astype(DT[code]).reshape(
+            shape)
+    elif 'raw' in v:
         arr = dec_raw(v['raw'], DT[code], shape)
     elif code.startswith('S'):
         arr = np.array([c.encode() for c in v['data']], dtype=code).reshape(
@@ -422,6 +428,10 @@ def cmp_array(lib, exp, what, bits=True, rtol=0.0, atol=0.0,
     if check_dtype and ld.dtype != ed.dtype:
         return '%s: dtype %s, expected %s' % (what, ld.dtype, ed.dtype)
     if check_mask and not np.array_equal(lm, em):
+        if lm.size > 64:
+            return '%s: mask differs (%d cells masked, expected %d; %d ' \
+                'cells disagree)' % (what, int(lm.sum()), int(em.sum()),
+                                     int((lm != em).sum()))
         return '%s: mask differs (got %s, expected %s)' % (
             what, lm.astype(int).tolist(), em.astype(int).tolist())
     keep = ~(lm | em)
